@@ -359,11 +359,17 @@ impl<I: Interner> RenderAsRust<I> for OpaqueTyDatum<I> {
         {
             let s = &s.add_debrujin_index(Some(0));
             let clauses = bounds.bounds.skip_binders();
-            write!(
-                f,
-                ": {} = ",
-                display_self_where_clauses_as_bounds(s, clauses)
-            )?;
+            write!(f, ": {}", display_self_where_clauses_as_bounds(s, clauses))?;
+
+            // where clauses
+            let where_clauses = bounds.where_clauses.skip_binders();
+            if !where_clauses.is_empty() {
+                let s = &s.add_indent();
+                write!(f, "\nwhere\n{}\n", where_clauses.display(s))?;
+            } else {
+                write!(f, " ")?;
+            }
+            write!(f, "= ")?;
         }
         write!(
             f,
